@@ -109,23 +109,9 @@ pub(super) fn on_node(token: &CancellationToken, worker_nodes: usize) -> bool {
     interval != 0 && worker_nodes % interval == 0 && token.is_cancelled()
 }
 
-/// Fresh artifact for a search that was given none, sized by the environment
-/// variable `WEECHESS_VERIF_TT_MB` (unset: the shipped 1 GiB default is used).
-/// Draws the hasher from the rng exactly as the shipped path does.
-pub(super) fn default_artifact(rng: &mut RandomNumberGenerator) -> Option<SearchArtifact> {
-    let mb: usize = std::env::var("WEECHESS_VERIF_TT_MB").ok()?.parse().ok()?;
-    const TABLE_COUNT: usize = 128;
-    let hasher = ZobristHasher::with(rng);
-    let tables = (0..TABLE_COUNT)
-        .map(|_| TranspositionTable::with_memory(usize::max(mb, 1) * 1024 * 1024 / TABLE_COUNT))
-        .collect();
-
-    Some(SearchArtifact {
-        hasher,
-        transpositions: TranspositionTableAccess::with_tables(tables),
-        state_history: StateHistory::new(),
-    })
-}
+/// Size in MiB of the table a search builds when it was given no artifact (shipped: 1 GiB).
+/// Only the size is substituted; the shipped construction path runs unchanged.
+pub(super) const DEFAULT_TABLE_SIZE_MB: usize = 4;
 
 impl SearchArtifact {
     /// A small artifact: `tables` sub-tables of `buckets` buckets, hasher drawn from `seed`.
